@@ -56,7 +56,7 @@ def _describe_bytes(server, md=None):
 def run(ctx: Ctx) -> None:
     warnings.filterwarnings("ignore")
     quick = ctx.quick
-    types = ["int", "str", "bytes", "dc"] if quick else ["int", "i32", "str", "float", "bool", "bytes", "list_int", "dc"]
+    types = ["int", "str", "dc"] if quick else ["int", "i32", "str", "float", "bool", "bytes", "list_int", "dc"]
     consts = {"Types": S(types)}
     invs = ["RelevantChangesPayload", "IrrelevantKeepsPayload", "EitherKeepsPayload", "EditChangesSomething", "EditedWellFormed"]
     cases = enumerate_families(ctx, "data", "Describe", ["\\E d \\in BaseDefs : c \\in CasesOf(d)"], constants=consts,
